@@ -85,6 +85,34 @@ ten objects {{"summary", "minimal_reproduction" (a short python snippet), "obser
 reproduced on the clean tree and that clearly contradict the statement as written. Do not try to fix them.
 ''',
 }
+EXTRA['6'] = '''
+ADDITIONAL GUIDANCE FOR THIS ROUND: five earlier rounds already produced mutations in the obvious functions, in second-order state
+(caches, cleanup paths, call histories), behind rare argument kinds / typing forms / channels / nesting depths / edge values, in the
+interaction of two ordinary features, and in helpers that only some inputs travel through. For this round:
+  * prefer the CENTRAL code the property flows through (ArgumentParser._parse_common / _apply_actions / merge_config / _load_env_vars /
+    parse_known_args patching / get_defaults / dump / save / validate, adapt_typehints' main branches, ActionTypeHint._check_type,
+    Namespace._parse_key / __setitem__ / update / clone / as_dict, Path.__init__ / __call__ / relative_path_context, ActionLink.apply_* /
+    instantiation_order, _ActionSubCommands.get_subcommands / handle_subcommands, the parameter resolvers' visitors, the loaders / dumpers),
+    and make the slip SUBTLE there: a boundary (< vs <=, [1:] vs [:-1]), the wrong one of two similarly named variables, an early
+    return / continue that skips the tail of a loop body, a condition made slightly too wide or too narrow (isinstance vs type() is,
+    `is None` vs falsy, `in` vs startswith), an in-place operation where a copy was made (or the reverse), a default argument that
+    became shared, a sort that lost its stability or key, a dict/set iteration order that replaces a declared order;
+  * or TWO cooperating sites that each look harmless alone (a helper returns a slightly different shape and one of its callers
+    compensates, so only the other callers see it);
+  * or behaviour behind documented parser OPTIONS and call FLAGS that tests rarely vary: env_prefix (True / False / a string),
+    default_env on sub-parsers, default_meta / with_meta / strip_meta, skip_none / skip_default / skip_validation of dump and save,
+    defaults=False, env=True/False arguments of the parse methods, set_defaults, add_argument(..., required=True) for options,
+    nargs with type hints, choices, metavar, ActionParser prefixes, dest different from the option name, abbreviations.
+The change must still break the property AS STATED (re-read the statement; a demo that needs behaviour outside the statement is not
+wanted) and must survive the existing suite. The tree you work on already contains many recent bug fixes; treat it as the reference.
+
+SECOND DELIVERABLE (optional): while probing the UNCHANGED tree you may notice inputs for which the reference implementation itself
+already violates the property statement. If so, write {wt}/_mut/existing_defects.json: a JSON list of at most six objects
+{{"summary", "minimal_reproduction" (a short python snippet), "observed", "expected"}}; only cases you reproduced on the clean tree that
+clearly contradict the statement as written and that were probably NOT reported before (avoid: Decimal through float, Infinity in json,
+YAML-null look-alike strings, C1 control characters, empty-mapping foreign keys, Dict with non-str/int keys, FrozenSet, defaults that
+are not normalised, meta keys, abbreviations, skip_none dropping None). Do not try to fix them.
+'''
 for l in open('/verif/properties.jsonl'):
     p = json.loads(l)
     wt = f"/tmp/wt{R}/{p['id']}"
